@@ -137,6 +137,38 @@ func checkC11(c C11Case) h.Outcome {
 		o.Violation = h.V("roundtrip-mismatch/"+shortAlg(c.Enc.DataAlg), "DecryptBytes returned %d bytes %x, want %d bytes %x", len(pt), pt, len(c.Plain), c.Plain)
 		return o
 	}
+	// (a') the returned bytes stay what they are while further messages are decrypted (a result that aliases
+	// a re-used buffer changes under the caller's hands)
+	plain2 := make([]byte, len(c.Plain)+1)
+	for i := range plain2 {
+		plain2[i] = byte(i*7) ^ 0x55
+	}
+	e2 := c.Enc
+	el2, err := e2.EncryptElement(plain2, h.NSStyle{P: "samlp", A: "saml"})
+	if err != nil {
+		o.Violation = h.V("harness/encrypt2", "cannot encrypt the second message: %v", err)
+		return o
+	}
+	el2.CreateAttr("xmlns:saml", h.NSAssertion)
+	var ea2 types.EncryptedAssertion
+	if err := xml.Unmarshal(h.Serialize(el2, h.Layout{}), &ea2); err != nil {
+		o.Violation = h.V("harness/unmarshal2", "cannot unmarshal the second EncryptedAssertion: %v", err)
+		return o
+	}
+	held := append([]byte(nil), pt...)
+	pt2, err := ea2.DecryptBytes(cert)
+	if err != nil || !bytes.Equal(pt2, plain2) {
+		o.Violation = h.V("roundtrip-mismatch/second/"+shortAlg(c.Enc.DataAlg), "second message: DecryptBytes returned %x (err %v), want %x", pt2, err, plain2)
+		return o
+	}
+	if _, err := ea.DecryptBytes(cert); err != nil {
+		o.Violation = h.V("roundtrip-error/repeat/"+shortAlg(c.Enc.DataAlg), "decrypting the same EncryptedAssertion again failed: %v", err)
+		return o
+	}
+	if !bytes.Equal(pt, held) || !bytes.Equal(pt2, plain2) {
+		o.Violation = h.V("held-plaintext-changed/"+shortAlg(c.Enc.DataAlg), "bytes returned by DecryptBytes changed while later messages were decrypted: first now %x (was %x), second now %x (was %x)", pt, held, pt2, plain2)
+		return o
+	}
 	// (b) twin differential through full validation, with the SP key configured in every way
 	if c.Twin {
 		sp := h.BaseSP()
